@@ -9,6 +9,7 @@ import (
 	"encoding/json"
 	"fmt"
 	"os"
+	"time"
 )
 
 type replay struct {
@@ -210,6 +211,9 @@ func AllocsLE(bound int) bool { return true }
 
 // SymAllocs is the number of symbolic-length allocations made so far.
 func SymAllocs() int { return 0 }
+
+// Quiesce lets all other goroutines run until each is blocked or finished (native: a short sleep).
+func Quiesce() { time.Sleep(20 * time.Millisecond) }
 
 func Yield()                 {}
 func SetMapOrderLimit(n int) {}
